@@ -1,6 +1,8 @@
 (** C18: pruning preserves the level-0 hash and depth, pruned branches store the
     hash/depth of what they replace, the proof root commits to the original
-    root, unpruned paths keep their data. *)
+    root, unpruned paths keep their data.  The source tree may contain pruned
+    branches of any level mask and library cells ([prunable_tree]): the level-0
+    hash of a pruned branch is the hash it stores. *)
 From Coq Require Import List NArith Arith Lia Bool.
 From Tongo Require Import Lib.Bits Lib.Res Model.BocParse Model.CellHash Spec.ReprHash Model.Merkle.
 Import ListNotations.
@@ -83,6 +85,28 @@ Proof.
   rewrite N.mul_comm. symmetry. apply N.div_mod. lia.
 Qed.
 
+(** the 128-byte buffer of a cell *)
+Lemma bits_bytes_length n : forall l, length (bits_bytes n l) = n.
+Proof. induction n as [|n IHn]; intros l; [reflexivity|]. cbn [bits_bytes length]. rewrite IHn. reflexivity. Qed.
+
+Lemma bits_bytes_byte_list n : forall l, byte_list (bits_bytes n l).
+Proof.
+  induction n as [|n IHn]; intros l; [constructor|]. cbn [bits_bytes]. constructor; [|apply IHn].
+  eapply N.lt_le_trans; [apply N_of_bits_bound|].
+  change 256%N with (2 ^ N.of_nat 8)%N. apply N.pow_le_mono_r; [lia|].
+  pose proof (firstn_le_length 8 (l ++ zeros 8)). lia.
+Qed.
+
+Lemma byte_list_skipn k (l : bytes) : byte_list l -> byte_list (skipn k l).
+Proof.
+  unfold byte_list. intros Hl. rewrite <- (firstn_skipn k l) in Hl. apply Forall_app in Hl. apply Hl.
+Qed.
+
+Lemma byte_list_firstn k (l : bytes) : byte_list l -> byte_list (firstn k l).
+Proof.
+  unfold byte_list. intros Hl. rewrite <- (firstn_skipn k l) in Hl. apply Forall_app in Hl. apply Hl.
+Qed.
+
 (** shape of level-0 answers: a 32-byte hash and a 16-bit depth *)
 Definition plain (special : bool) (ty : N) : Prop :=
   is_pruned special ty = false /\ is_merkle special ty = false.
@@ -102,6 +126,53 @@ Proof.
   destruct (negb (nrefs =? 0) && (1024 <=? fold_left N.max (map snd ks) 0)%N) eqn:E; [discriminate|].
   intros Heq. injection Heq as <- <-. split; [apply H_len|split; [apply H_bytes|]].
   destruct (Nat.eqb nrefs 0); [lia|]. cbn [negb andb] in E. apply N.leb_gt in E. lia.
+Qed.
+
+(* the trees pruneCells handles: no Merkle cell anywhere, pruned branches are
+   leaves; ordinary cells, library cells and pruned branches of any level mask *)
+Fixpoint prunable_tree (c : cell) : Prop :=
+  match c with
+  | Cell special ty _ _ refs =>
+      is_merkle special ty = false /\
+      (is_pruned special ty = true -> refs = []) /\
+      (fix all (rs : list cell) : Prop := match rs with [] => True | x :: t => prunable_tree x /\ all t end) refs
+  end.
+
+Lemma plain_prunable : forall c, plain_tree c -> prunable_tree c.
+Proof.
+  fix IH 1. intros [special ty m data refs] Hpl. cbn [plain_tree] in Hpl. destruct Hpl as ((Hp & Hm) & Hall).
+  cbn [prunable_tree]. split; [exact Hm|]. split; [intros E; rewrite E in Hp; discriminate|].
+  induction refs as [|x t IHt]; [exact I|]. destruct Hall as (Hx & Ht). split; [apply IH; exact Hx|apply IHt; exact Ht].
+Qed.
+
+(* the level-0 answer of ANY cell is a 32-byte hash and a 16-bit depth: for a
+   pruned branch of level > 0 it is read from the 128-byte buffer *)
+Lemma hd_at0_shape c h d :
+  hd_at H c 0 = Ok (h, d) -> length h = 32%nat /\ byte_list h /\ (d < 65536)%N.
+Proof.
+  destruct c as [special ty m data refs]. cbn [hd_at]. intros Ehd.
+  destruct (is_pruned special ty).
+  - destruct (0 <? mask_level m)%nat.
+    + assert (E0 : mask_popcount (mask_apply m 0) = 0%nat).
+      { unfold mask_apply. change (2 ^ N.of_nat 0 - 1)%N with 0%N. rewrite N.land_0_r. reflexivity. }
+      rewrite E0 in Ehd. unfold stored_depth, stored_hash in Ehd.
+      pose proof (bits_bytes_byte_list 128 data) as Hb. fold (buf_bytes data) in Hb.
+      pose proof (bits_bytes_length 128 data) as Hl. fold (buf_bytes data) in Hl.
+      set (sk := skipn (2 + 32 * mask_popcount m + 2 * 0) (buf_bytes data)) in Ehd.
+      assert (Hsk : byte_list sk) by (apply byte_list_skipn; exact Hb).
+      set (hh := firstn 32 (skipn (2 + 32 * 0) (buf_bytes data))) in Ehd.
+      assert (Hhl : length hh = 32%nat) by (unfold hh; rewrite firstn_length, skipn_length, Hl; reflexivity).
+      assert (Hhb : byte_list hh) by (apply byte_list_firstn, byte_list_skipn; exact Hb).
+      clearbody sk hh.
+      destruct sk as [|a [|b tl]]; cbn [bind] in Ehd; try discriminate.
+      injection Ehd as <- <-.
+      split; [exact Hhl|split; [exact Hhb|]].
+      inversion Hsk as [|? ? Ha Hrest]; subst. inversion Hrest as [|? ? Hb' _]; subst. lia.
+    + match type of Ehd with bind ?X _ = _ => destruct X as [ks|?|?] end; cbn [bind] in Ehd; try discriminate.
+      destruct (level_repr_shape _ _ _ _ _ _ _ _ _ Ehd) as (L & B & D). split; [exact L|split; [exact B|lia]].
+  - cbn [own_levels] in Ehd.
+    match type of Ehd with bind ?X _ = _ => destruct X as [ks|?|?] end; cbn [bind] in Ehd; try discriminate.
+    destruct (level_repr_shape _ _ _ _ _ _ _ _ _ Ehd) as (L & B & D). split; [exact L|split; [exact B|lia]].
 Qed.
 
 Lemma plain_level0 special ty m data refs :
@@ -131,20 +202,22 @@ Qed.
 
 (** *** pruning preserves the level-0 hash and depth *)
 Theorem prune_level0 : forall c pruned path c',
-  plain_tree c -> prune H pruned path c = Ok c' -> hd_at H c' 0 = hd_at H c 0.
+  prunable_tree c -> prune H pruned path c = Ok c' -> hd_at H c' 0 = hd_at H c 0.
 Proof.
   fix IH 1. intros c pruned path c' Hpl Hpr.
-  destruct c as [special ty m data refs]. cbn [plain_tree] in Hpl. destruct Hpl as (Hplain & Hall).
-  cbn [prune] in Hpr. destruct Hplain as (Hp & Hm). rewrite Hm in Hpr.
+  destruct c as [special ty m data refs]. cbn [prunable_tree] in Hpl. destruct Hpl as (Hm & Hpb & Hall).
+  cbn [prune] in Hpr. rewrite Hm in Hpr.
   destruct (pruned path).
-  - (* replaced by a pruned branch *)
+  - (* replaced by a pruned branch that stores the level-0 answer *)
     destruct (hd_at H (Cell special ty m data refs) 0) as [[h d]|e|p] eqn:Ehd; cbn [bind] in Hpr; try discriminate.
     injection Hpr as <-. cbn [fst snd].
-    rewrite (plain_level0 _ _ _ _ _ (conj Hp Hm)) in Ehd.
-    match type of Ehd with bind ?X _ = _ => destruct X as [ks|?|?] end; cbn [bind] in Ehd; try discriminate.
-    destruct (level_repr_shape _ _ _ _ _ _ _ _ _ Ehd) as (L & B & D).
-    apply pruned_cell_level0; [exact L|exact B|lia].
-  - (* kept: children pruned recursively *)
+    destruct (hd_at0_shape _ _ _ Ehd) as (L & B & D).
+    apply pruned_cell_level0; [exact L|exact B|exact D].
+  - destruct (is_pruned special ty) eqn:Hp.
+    { (* a pruned branch of the source that is kept: a leaf, copied *)
+      specialize (Hpb eq_refl). subst refs. cbn [bind fold_left] in Hpr. injection Hpr as <-. reflexivity. }
+    clear Hpb.
+    (* kept: children pruned recursively *)
     match type of Hpr with bind ?X _ = _ => destruct X as [refs'|?|?] eqn:Ego end; cbn [bind] in Hpr; try discriminate.
     injection Hpr as <-.
     rewrite !(plain_level0 _ _ _ _ _ (conj Hp Hm)).
@@ -204,7 +277,7 @@ Qed.
 (** the proof root is a Merkle-proof cell carrying the hash and depth of the
     original root; the pruned tree under it has exactly that level-0 hash and depth *)
 Theorem proof_commits root pruned p :
-  plain_tree root -> create_proof H pruned root = Ok p ->
+  prunable_tree root -> create_proof H pruned root = Ok p ->
   exists h d body,
     hd_at H root 0 = Ok (h, d) /\
     p = Cell true T_MPROOF 0 (bits_of 8 3 ++ bytes_to_bits h ++ bits_of 16 d) [body] /\
@@ -286,3 +359,119 @@ Proof.
 Qed.
 
 End Q.
+
+(** *** histories over one prover
+    The Go prover keeps the root only and every [Cursor()] starts with an empty
+    pruned set, so in the model an operation is a function of (root,
+    operation) and these two facts are immediate; their content is the
+    correspondence run, which uses ONE Go prover for the whole history and
+    compares every result with [run_op] of that operation alone. *)
+Section Hist.
+Variable H : bytes -> bytes.
+Variable same : list nat -> list nat -> bool.
+
+Lemma prover_run_map root ops : prover_run H same root ops = map (run_op H same root) ops.
+Proof. induction ops as [|o t IHt]; [reflexivity|]. cbn [prover_run prover_step map]. rewrite IHt. reflexivity. Qed.
+
+Theorem history_independent root before o after :
+  nth_error (prover_run H same root (before ++ o :: after)) (length before) =
+  Some (run_op H same root o) /\
+  prover_run H same root [o] = [run_op H same root o].
+Proof.
+  split; [|reflexivity]. rewrite prover_run_map, map_app. cbn [map].
+  rewrite nth_error_app2 by (rewrite map_length; lia).
+  rewrite map_length, Nat.sub_diag. reflexivity.
+Qed.
+End Hist.
+
+(** *** the proof for a key keeps the path to its value
+    Every position the walk of ProveKeyInHashmap prunes is the sibling at a
+    fork of the path it follows, so no prefix of the path to the leaf is
+    pruned: the leaf, with its label and value bits, is in the proof. *)
+Lemma path_eqb_eq : forall a b, path_eqb a b = true -> a = b.
+Proof.
+  unfold path_eqb. induction a as [|x a IHa]; intros [|y b] E; try reflexivity; try discriminate.
+  cbn [length combine forallb fst snd] in E. apply andb_prop in E. destruct E as (El & Ef).
+  apply andb_prop in Ef. destruct Ef as (Exy & Ef). apply Nat.eqb_eq in Exy. subst y.
+  f_equal. apply IHa. cbn [Nat.eqb] in El. rewrite El, Ef. reflexivity.
+Qed.
+
+Definition forks_off (path tail q : list nat) : Prop :=
+  exists pre b b' rest, q = path ++ pre ++ [b] /\ tail = pre ++ b' :: rest /\ b <> b'.
+
+Lemma prove_walk_inv : forall fuel c key remaining keysize prefix path acc pruned leaf rest prefix',
+  prove_walk fuel c key remaining keysize prefix path acc = Ok (pruned, leaf, rest, prefix') ->
+  exists tail x m lab,
+    leaf = path ++ tail /\ subcell c tail = Some x /\ cell_special x = false /\
+    load_label m (cell_bits x) = Some (lab, rest) /\
+    (forall q, In q pruned -> In q acc \/ forks_off path tail q).
+Proof.
+  induction fuel as [|f IHf]; intros c key remaining keysize prefix path acc pruned leaf rest prefix' Hw;
+    [discriminate|].
+  cbn [prove_walk] in Hw.
+  destruct (cell_special c) eqn:Esp; [discriminate|].
+  destruct (load_label remaining (cell_bits c)) as [[lab rst]|] eqn:El; [|discriminate].
+  destruct (keysize <? length (prefix ++ lab))%nat; [discriminate|].
+  destruct (remaining <=? length lab)%nat.
+  - injection Hw as <- <- <- <-. exists [], c, remaining, lab.
+    rewrite app_nil_r. repeat split; auto.
+  - destruct (short (S (length lab)) key); [discriminate|].
+    destruct (keysize <? S (length (prefix ++ lab)))%nat; [discriminate|].
+    destruct (cell_refs c) as [|l [|r rs]] eqn:Er; [discriminate|destruct (nth (length lab) key false); discriminate|].
+    destruct (nth (length lab) key false).
+    + destruct (IHf _ _ _ _ _ _ _ _ _ _ _ Hw) as (tail & x & m & lab' & E1 & E2 & E3 & E4 & E5).
+      exists (1%nat :: tail), x, m, lab'. rewrite <- app_assoc in E1. split; [exact E1|].
+      split; [cbn [subcell]; rewrite Er; exact E2|]. split; [exact E3|]. split; [exact E4|].
+      intros q Hq. destruct (E5 q Hq) as [Hin|(pre & b & b' & rest' & Q1 & Q2 & Q3)].
+      * apply in_app_or in Hin. destruct Hin as [Hin|[<-|[]]]; [left; exact Hin|].
+        right. exists [], 0%nat, 1%nat, tail. repeat split; auto.
+      * right. exists (1%nat :: pre), b, b', rest'. subst q tail. rewrite <- app_assoc. repeat split; auto.
+    + destruct (IHf _ _ _ _ _ _ _ _ _ _ _ Hw) as (tail & x & m & lab' & E1 & E2 & E3 & E4 & E5).
+      exists (0%nat :: tail), x, m, lab'. rewrite <- app_assoc in E1. split; [exact E1|].
+      split; [cbn [subcell]; rewrite Er; exact E2|]. split; [exact E3|]. split; [exact E4|].
+      intros q Hq. destruct (E5 q Hq) as [Hin|(pre & b & b' & rest' & Q1 & Q2 & Q3)].
+      * apply in_app_or in Hin. destruct Hin as [Hin|[<-|[]]]; [left; exact Hin|].
+        right. exists [], 1%nat, 0%nat, tail. repeat split; auto.
+      * right. exists (0%nat :: pre), b, b', rest'. subst q tail. rewrite <- app_assoc. repeat split; auto.
+Qed.
+
+Lemma forks_off_not_prefix tail q k : forks_off [] tail q -> firstn k tail <> q.
+Proof.
+  intros (pre & b & b' & rest & Q1 & Q2 & Q3) E. cbn [app] in Q1. subst q.
+  pose proof (firstn_skipn k tail) as Hs. rewrite E, Q2, <- app_assoc in Hs.
+  apply app_inv_head in Hs. cbn [app] in Hs. injection Hs as Hb _. exact (Q3 Hb).
+Qed.
+
+Section KeyReveals.
+Variable H : bytes -> bytes.
+
+Theorem key_proof_reveals root key vbits p :
+  prove_key H root key vbits = Ok p ->
+  exists data body leaf x x' m lab rest,
+    p = Cell true T_MPROOF 0 data [body] /\
+    subcell root leaf = Some x /\ cell_special x = false /\
+    load_label m (cell_bits x) = Some (lab, rest) /\ short vbits rest = false /\
+    subcell body leaf = Some x' /\ cell_bits x' = cell_bits x.
+Proof.
+  intros Hp. unfold prove_key in Hp.
+  destruct (prove_walk _ _ _ _ _ _ _ _) as [[[[pruned leaf] rest] prefix]|?|?] eqn:Ew; cbn [bind] in Hp; try discriminate.
+  destruct (short vbits rest) eqn:Ev; [discriminate|].
+  destruct (short (length key) prefix); [discriminate|].
+  destruct (negb _); [discriminate|].
+  unfold create_proof in Hp.
+  destruct (prune H (in_paths pruned) [] root) as [body|?|?] eqn:Ep; cbn [bind] in Hp; try discriminate.
+  destruct (hd_at H root 0) as [hd|?|?]; cbn [bind] in Hp; try discriminate.
+  injection Hp as <-.
+  destruct (prove_walk_inv _ _ _ _ _ _ _ _ _ _ _ _ Ew) as (tail & x & m & lab & E1 & E2 & E3 & E4 & E5).
+  cbn [app] in E1. subst tail.
+  destruct (unpruned_path_keeps_data H leaf root (in_paths pruned) [] body x Ep) as (x' & S1 & S2 & _).
+  - intros k _. cbn [app]. unfold in_paths.
+    destruct (existsb (path_eqb (firstn k leaf)) pruned) eqn:Ex; [|reflexivity].
+    apply existsb_exists in Ex. destruct Ex as (q & Hq & Heq). apply path_eqb_eq in Heq.
+    destruct (E5 q Hq) as [[]|Hf]. exfalso. exact (forks_off_not_prefix leaf q k Hf Heq).
+  - exact E2.
+  - exists (bits_of 8 3 ++ bytes_to_bits (fst hd) ++ bits_of 16 (snd hd)), body, leaf, x, x', m, lab, rest.
+    split; [reflexivity|]. split; [exact E2|]. split; [exact E3|]. split; [exact E4|].
+    split; [exact Ev|]. split; [exact S1|exact S2].
+Qed.
+End KeyReveals.
